@@ -745,7 +745,11 @@ impl TransactionalMemory {
 
         let header_bytes = self.storage.read_direct(0, DB_HEADER_SIZE)?;
         let unrepaired = UnrepairedDatabaseHeader::from_bytes(&header_bytes, self.page_size)?;
-        let (header, was_clean) = unrepaired.finalize(self.storage.raw_file_len()?)?;
+        // The length this process last gave the file. A transaction that grew the file and was
+        // then aborted leaves the on-disk region counts behind it, which is not damage
+        let expected_len = self.state.lock().unwrap().header.layout().len();
+        let (header, was_clean) =
+            unrepaired.finalize_expecting(self.storage.raw_file_len()?, Some(expected_len))?;
         if !was_clean {
             self.storage
                 .write(0, DB_HEADER_SIZE, true)?
